@@ -8,6 +8,7 @@
 import Ctrmml.Model.MdsConv
 import Ctrmml.Spec.Timeline
 import Ctrmml.Proofs.CodecBreak
+import Ctrmml.Proofs.CodecTrack
 namespace Ctrmml.C02
 open Ctrmml Ctrmml.Mds Ctrmml.Seq Tables
 
@@ -140,6 +141,26 @@ theorem C02_codec_roundtrip_loops (nS nM : Nat) (ts : List Node) (hl : linL ts =
   refine ⟨e', h1, fun hb => ⟨(h2 hb).1, fun base mj maxTicks ln lr hlen => ?_⟩⟩
   exact ((h2 hb).2 base mj ln lr).run_eq maxTicks hlen
 
+/-- **The general single track**: a bracket structure `ta` (nested counted loops with and without
+break over the linear fragment), the loop point at loop depth 0, a bracket structure `tb`, the
+loop-back jump.  `trackBytes eB` = the structured encoding of the two parts followed by the jump
+instruction; if it is shorter than 64 KiB it is what `convert_track` produces, and with the jump
+followed `mj` times the interpreter plays the expansion of `ta`, then the expansion of `tb`
+`mj + 1` times with a loop mark after each of the first `mj`. -/
+theorem C02_codec_roundtrip_track (nS nM : Nat) (ta tb : List Node) (ha : linL ta = true) (hb : linL tb = true)
+    (jarg : Nat) :
+    ∃ eA eB, encL nS nM ta {} = .ok eA ∧ encL nS nM tb (afterSegno eA) = .ok eB ∧
+      ((trackBytes eB).length < 65536 →
+        convertTrack nS nM (flatL ta ++ [⟨mds_SEGNO, 0⟩] ++ flatL tb ++ [⟨mds_JUMP, jarg⟩]) = .ok (trackBytes eB) ∧
+        ∀ (base mj maxTicks : Nat) (ln lr : Option Nat),
+          (expL nS nM ta ++ repeatL mj (expL nS nM tb ++ [Tk.loopMark]) ++ expL nS nM tb).length ≤ maxTicks →
+          ∃ n, ∀ fuel, fuel > n →
+            run (trackBytes eB) base mj maxTicks fuel { pc := 0, lastNote := ln, lastRest := lr } =
+              (expL nS nM ta ++ repeatL mj (expL nS nM tb ++ [Tk.loopMark]) ++ expL nS nM tb, .finished)) := by
+  obtain ⟨eA, eB, hA, hB, h⟩ := codec_roundtrip_track nS nM ta tb ha hb jarg
+  refine ⟨eA, eB, hA, hB, fun hlen => ⟨(h hlen).1, fun base mj maxTicks ln lr hmax => ?_⟩⟩
+  exact ((h hlen).2 base mj ln lr).run_eq maxTicks hmax
+
 /-! ### non-vacuity -/
 
 /-- the D4 shape `note, note (same length), SEGNO, rest, note, JUMP` -/
@@ -180,5 +201,12 @@ example : ((encL 0 0 exBreak {}).map (·.out)).toOption =
     some [0xa6, 0x17, 0xfa, 0xa6, 0x17, 0xa6, 0xfc, 0x0b, 0x2f, 0xfa, 0xa8, 0x0b, 0xfc, 0x03, 0x0b, 0xfb, 2, 0xfb, 3] := by
   decide +kernel
 example : (expL 0 0 exBreak).length = 24 + 2 * (48 + 48 + (12 + 12 + 12)) + 48 := by decide +kernel
+
+/-- a looping track with a loop (with break) after the loop point: `c c L [ c / r ]2` -/
+def exTrackA : List Node := [.ev ⟨0xa6, 24⟩, .ev ⟨0xa6, 24⟩]
+def exTrackB : List Node := [.loopB [.ev ⟨0xa6, 24⟩] [.ev ⟨mds_REST, 24⟩] 2]
+example : linL exTrackA = true ∧ linL exTrackB = true := by decide
+example : (convertTrack 0 0 (flatL exTrackA ++ [⟨mds_SEGNO, 0⟩] ++ flatL exTrackB ++ [⟨mds_JUMP, 0⟩])).toOption =
+    some [0xa6, 0x17, 0xa6, 0x17, 0xfa, 0xa6, 0x17, 0xfc, 0x03, 0x17, 0xfb, 2, 0xf5, 0xff, 0xf5] := by decide +kernel
 
 end Ctrmml.C02
